@@ -229,6 +229,11 @@ def run(ctx):
     for sp in dg_specs:
         for r in range(reps):
             jobs.append((n, sp, ctx.rng.getrandbits(32), ("datagram", ctx.rng.choice([0.3, 0.6, 1.0])))); n += 1
+    # the victims' own traffic reordered and partly lost (the same way in both runs): state that several connections of one
+    # process would share (windows, buffers, tables) shows up as cross-talk
+    for sp in dg_specs[:3]:
+        for r in range(2 if quick else 8):
+            jobs.append((n, dict(sp, jitter=ctx.rng.choice([1, 2]), rounds=4), ctx.rng.getrandbits(32), ("datagram", ctx.rng.choice([0.0, 0.3])))); n += 1
     st_spec = dict(transport="lite", server_version=1, clients=[dict(version=1, vport=1), dict(version=1, vport=1)], vports=[1])
     for kind in ("partial-header", "bad-magic", "garbage-stream", "huge-announce"):
         for r in range(1 if quick else 4):
